@@ -429,6 +429,16 @@ Definition before_layers (pre : list entry) (target : entry) (i : N) : list laye
   map layer_of pre ++
   [(e_num target, squash empty_diff (firstn (N.to_nat i) (e_items target)), e_classes target)].
 
+(* the same, one WIRE transaction at a time: what the feeder sent for each block, in order.  Each
+   block contributes a class layer (its declared classes, no writes) and one layer per transaction *)
+Definition entry_layers (e : entry) : list layer :=
+  (e_num e, empty_diff, e_classes e) :: map (fun it => (e_num e, it_diff it, @nil (N * N))) (e_items e).
+Definition tx_layers (es : list entry) : list layer := flat_map entry_layers es.
+Definition before_tx_layers (pre : list entry) (target : entry) (i : N) : list layer :=
+  tx_layers pre ++
+  (e_num target, empty_diff, e_classes target)
+    :: map (fun it => (e_num target, it_diff it, @nil (N * N))) (firstn (N.to_nat i) (e_items target)).
+
 (* validity of a run of diffs w.r.t. deployment: a contract deployed by a diff has not been
    touched (storage, nonce, replaced class) by an earlier diff of the run.  The canonical chain
    rejects anything else (deploy of an existing contract). *)
